@@ -367,7 +367,38 @@ def gen_overblock(rng):
         base["route"] = [tm([[0, 4], [0, 0]])]
     base.pop("batchS", None)
     base["T"] = rng.randint(20, 45)
+    if not three and rng.random() < 0.5:
+        # the small node is itself on a non-pre-emptive schedule: the place a blocked customer waits for is freed by
+        # a customer that was served in overtime (its server leaves with it)
+        m2 = rng.randint(2, 3)
+        e2, t2 = [], 0
+        for _ in range(m2):
+            t2 += rng.randint(2, 5)
+            e2.append(t2)
+        base["nodes"][1].update({"kind": "sched", "c": 0,
+                                 "sched": {"nums": [rng.choice([1, 1, 2]) for _ in range(m2)], "ends": e2, "pre": 0,
+                                           "off": 0}})
     return base
+
+
+def gen_slotblock(rng):
+    """slotted services (no pre-emption) feeding a small slow node: customers finish at a slotted node and are blocked
+    there; later slots must not serve them again and must serve the waiting ones"""
+    K = 1
+    m = rng.randint(2, 3)
+    slots, t = [], 0
+    for _ in range(m):
+        t += rng.randint(1, 4)
+        slots.append(t)
+    sc = {"N": 2, "K": K, "prio": [0],
+          "nodes": [{"kind": "slot", "c": 0, "qcap": INF,
+                     "slot": {"slots": slots, "sizes": [rng.choice([1, 2, 3]) for _ in range(m)],
+                              "cap": rng.random() < 0.5, "pre": 0, "off": rng.choice([0, 1])}},
+                    {"kind": "std", "c": 1, "qcap": rng.choice([0, 0, 1])}],
+          "arrS": [[samples(rng, 1, 3, 2)], [[]]],
+          "svcS": [[samples(rng, 1, 3, 2)], [samples(rng, 3, 8, 2)]],
+          "route": [tm([[0, 4], [0, 0]])], "T": rng.randint(20, 45)}
+    return sc
 
 
 def gen_trkccw(rng):
@@ -399,6 +430,20 @@ def gen_ppblock(rng):
     sc["route"] = [tm([[0, 4], [0, 0]]), tm([[0, rng.choice([2, 4])], [0, 0]])]
     sc.pop("batchS", None)
     sc["T"] = rng.randint(15, 40)
+    return sc
+
+
+def gen_ppzero(rng):
+    """pre-emptive priorities at a node with a NON-pre-emptive schedule that has zero-server shifts: low-priority
+    customers finishing in overtime meet high-priority arrivals while no server is scheduled"""
+    sc = gen_ppsched(rng)
+    nd = sc["nodes"][0]
+    nd["sched"]["pre"] = 0
+    nums = nd["sched"]["nums"]
+    if 0 not in nums:
+        nums[-1] = 0
+    sc["svcS"][0][1] = samples(rng, 4, 9, 2)
+    sc["arrS"][0][0] = samples(rng, 1, 3, 2)
     return sc
 
 
@@ -1003,6 +1048,8 @@ def gen_stopcount(rng):
 
 
 FAMILIES = {
+    "slotblock": gen_slotblock,
+    "ppzero": gen_ppzero,
     "ppblock": gen_ppblock,
     "overblock": gen_overblock,
     "trkccw": gen_trkccw,
